@@ -77,14 +77,19 @@ def ref_nldf(n_cfg, rho):
 
 
 @functools.lru_cache(maxsize=None)
-def sdmx_H(j, kind):
+def sdmx_H(j, kind, ratio10=10):
     """-1/4 * H_j^{0} or H_j^{0d} (docs/features/sdmx.rst) for the UEG of density 1.
     rho^0(R) = int d^3u h(u;R) n_1(u) is evaluated in momentum space, where the UEG density matrix is
     the Fourier transform of the Fermi sphere: rho^0(R) = (1/pi^2) int_0^kF k^2 h~(k;R) dk, and the
-    transform of the documented h (a difference of two Gaussians) is elementary."""
+    transform of the documented h (a difference of two Gaussians) is elementary.
+    ratio10 != 10 (SDMXFullSettings, ratio r = ratio10/10): the fit matrices of SDMXFullPlan
+    (1/2 [a+b] + 1/4 [a/r + r b] + 1/4 [a r + b/r]) integrate
+         1/2 rho0(R)^2 + 1/2 rho0(R/sqrt r) rho0(sqrt r R)
+    (and the same with d/dR of each factor for the 'd' kind); r = 1 is the documented feature."""
     n = 1.0
     kf = (3 * np.pi ** 2 * n) ** (1.0 / 3)
     c = (2 / np.pi) ** 1.5 * 4 / (4 - np.sqrt(2))
+    sr = np.sqrt(ratio10 / 10.0)
 
     def I(x, beta):   # int_0^x t^2 exp(-beta t^2) dt
         return np.sqrt(np.pi) * special.erf(np.sqrt(beta) * x) / (4 * beta ** 1.5) - x * np.exp(-beta * x * x) / (2 * beta)
@@ -93,13 +98,13 @@ def sdmx_H(j, kind):
         x = kf * R
         return c / (np.pi ** 2 * R ** 3) * ((np.pi / 2) ** 1.5 * I(x, 1.0 / 8) - (np.pi / 4) ** 1.5 * I(x, 1.0 / 16))
 
-    def drho0(R):
+    def d_(fun, R):
         e = 1e-5 * R
-        return (rho0(R + e) - rho0(R - e)) / (2 * e)
+        return (fun(R + e) - fun(R - e)) / (2 * e)
     if kind == "0":
-        f = lambda R: 4 * np.pi * R ** (2 - j) * rho0(R) ** 2
+        f = lambda R: 4 * np.pi * R ** (2 - j) * (0.5 * rho0(R) ** 2 + 0.5 * rho0(R / sr) * rho0(R * sr))
     else:
-        f = lambda R: 4 * np.pi * R ** (4 - j) * drho0(R) ** 2
+        f = lambda R: 4 * np.pi * R ** (4 - j) * (0.5 * d_(rho0, R) ** 2 + 0.5 * d_(lambda t: rho0(t / sr), R) * d_(lambda t: rho0(t * sr), R))
     tot = 0.0
     edges = [1e-6, 0.5, 2.0, 6.0, 20.0, 100.0, 1e3, 1e5]
     for lo, hi in zip(edges[:-1], edges[1:]):
@@ -110,6 +115,14 @@ def sdmx_H(j, kind):
 def ref_sdmx(s_cfg, rho):
     if s_cfg["kind"] == "none":
         return np.array([])
+    if s_cfg["kind"] == "Full":
+        vals, nl1 = [], 0
+        for e in s_cfg["full"]:
+            pw, cnt = list(e["pows"]), list(e["cnt"])
+            vals += [sdmx_H(j, "0", e["ratio10"]) * rho ** (1 + j / 3.0) for j in pw[: cnt[0]]]
+            vals += [sdmx_H(j, "d", e["ratio10"]) * rho ** (1 + j / 3.0) for j in pw[: cnt[1]]]
+            nl1 += cnt[2] + cnt[3]
+        return np.array(vals + [0.0] * nl1)     # vector terms vanish for a uniform density
     s_cfg = featalg.sdmx_effective(s_cfg)
     pows = list(s_cfg["pows"])
     vals = [sdmx_H(j, "0") * rho ** (1 + j / 3.0) for j in pows]
@@ -247,7 +260,9 @@ def main():
                 ck.violation("get_vmap_heg_value", {"gamma": g, "heg": heg})
     ck.assumptions = ["SDMX reference constants from the momentum-space closed form + 1-D quadrature (1e-10); the shipped constants for j=2 differ from it by 5e-6 (H0) and 4e-5 (H0d), so the SDMX tolerance is 2e-4",
                       "uniform-gas values of vector (l=1) features are zero by symmetry",
-                      "SDMXFullSettings UEG table not covered"]
+                      "SDMXFullSettings: ratio != 1 terms follow the form integrated by SDMXFullPlan's fit matrices (undocumented), "
+                      "ratio = 1 terms the documented integrals; the four densities are queried on ONE settings object, so a reported value "
+                      "must not depend on earlier queries"]
     return ck.finish()
 
 
